@@ -173,6 +173,23 @@ def random_cases(family, rng, count):
             out.append({"fn": "normalize", "axis": "x", "a": X, "other": Y, "lo": R(lo), "hi": R(hi)})
             v = Fraction(rng.choice([-1, 1]) * rng.randint(1, 64), 8)
             out.append({"fn": "shiftscale", "x": X, "y": Y, "op": rng.choice(["shift_x", "shift_y", "scale_x", "scale_y"]), "v": R(v)})
+            # the same after a history of earlier shifts / scales (every call acts on the current samples by its own argument)
+            hx, hy, pre = list(xs), list(ys), []
+            for _ in range(rng.randint(1, 3)):
+                o = rng.choice(["shift_x", "shift_y", "scale_x", "scale_y", "scale_x", "scale_y"])
+                pv = Fraction(rng.choice([-3, -1, 2, 3, 5]), rng.choice([1, 2])) if o in ("shift_x", "shift_y", "scale_y") else Fraction(rng.choice([2, 3, 1, 5]), rng.choice([1, 2]))
+                pre.append({"k": o, "v": R(pv)})
+                if o == "shift_x":
+                    hx = [t + pv for t in hx]
+                elif o == "shift_y":
+                    hy = [t + pv for t in hy]
+                elif o == "scale_x":
+                    hx = [t * pv for t in hx]
+                else:
+                    hy = [t * pv for t in hy]
+            o2 = rng.choice(["scale_x", "scale_y", "scale_x", "scale_y", "shift_x", "shift_y"])
+            v2 = Fraction(rng.choice([2, 3, 1, 4]), rng.choice([1, 2])) * (rng.choice([-1, 1]) if o2 != "scale_x" else 1)
+            out.append({"fn": "shiftscale", "x0": X, "y0": Y, "x": [R(t) for t in hx], "y": [R(t) for t in hy], "pre": pre, "op": o2, "v": R(v2)})
         if intcase:
             for k in out[first:]:
                 if k["fn"] in ("truncate", "slice_value", "slice_index", "truncate_index", "normalize", "shiftscale", "linear_trend") \
@@ -188,7 +205,7 @@ def random_cases(family, rng, count):
 
 
 CASE_KEYS = ("fn", "x", "y", "r", "a", "b", "left", "right", "lr", "rr", "start", "stop", "step", "explicit_none", "q", "n", "mode",
-             "qcontainer", "xcontainer", "explicit_method", "x0", "y0", "pre", "c", "normalized", "axis", "other", "lo", "hi", "op", "v", "container", "method", "m", "b", "xoff", "r_kind")
+             "qcontainer", "xcontainer", "explicit_method", "x0", "y0", "pre", "c", "normalized", "axis", "other", "lo", "hi", "op", "v", "container", "method", "m", "b", "xoff", "r_kind")   # x0 / y0 / pre are already listed
 
 
 def case_of_event(ev):
